@@ -263,6 +263,10 @@ def run(ctx):
                cex=None if not over else dict(overwritten_parameter=over), native=None if not over else _native_frame(py))
     ctx.guard(_standin, ctx, py)
 
+    # frame of the modules under contract (no state kept between calls, arguments left alone): same analysis as C19
+    from props import C19 as _C19
+    ctx.guard(_C19.frame_obligations, ctx, py, "C07", {'kalman'})
+
 
 # -----------------------------------------------------------------------------------------------
 def _reference(x, P, z, H, R, dps=60):
